@@ -10,6 +10,8 @@ package main
 import (
 	"fmt"
 	"math/rand"
+	"regexp"
+	"strconv"
 	"strings"
 
 	"verif/harness/coqx"
@@ -90,6 +92,16 @@ func xPipeline(r *rand.Rand, class *[]string, unwrap bool) string {
 
 var xDurs = []string{"5s", "10s", "15s", "30s", "1m"}
 
+// set while a topk / bottomk query is generated: long ranges, so that several series meet in one window and the selection drops some
+var xLongRanges bool
+
+func xDur(r *rand.Rand) string {
+	if xLongRanges {
+		return []string{"30s", "1m", "1m"}[r.Intn(3)]
+	}
+	return pick(r, xDurs)
+}
+
 func xGrouping(r *rand.Rand, class *[]string, p int) (string, string) {
 	g := func() string {
 		ls := [][]string{{"a"}, {"c"}, {"level"}, {"a", "c"}, {"x"}, {"lvl", "a"}, {"job", "level", "c"}}[r.Intn(7)]
@@ -127,11 +139,30 @@ func xLRA(r *rand.Rand, class *[]string, double bool) string {
 	if unwrap && (double || r.Intn(2) == 0) {
 		pre, suf = xGrouping(r, class, 2)
 	}
-	return fn + pre + " (" + xMatchers(r) + xPipeline(r, class, unwrap) + " [" + pick(r, xDurs) + "])" + suf + xCmp(r, class)
+	return fn + pre + " (" + xMatchers(r) + xPipeline(r, class, unwrap) + " [" + xDur(r) + "])" + suf + xCmp(r, class)
 }
 
 func xQuery(r *rand.Rand) (string, []string) {
 	var class []string
+	if r.Intn(8) == 0 { // topk / bottomk over a range or vector aggregation
+		fn := []string{"topk", "bottomk"}[r.Intn(2)]
+		class = append(class, fn)
+		xLongRanges = true
+		defer func() { xLongRanges = false }()
+		var inner string
+		if r.Intn(3) == 0 {
+			inner = xLRA(r, &class, false)
+		} else {
+			agg := []string{"sum", "min", "max", "avg", "count"}[r.Intn(5)]
+			class = append(class, agg)
+			pre, suf := xGrouping(r, &class, 3)
+			if pre == "" && suf == "" {
+				class = append(class, "agg-no-grouping")
+			}
+			inner = agg + pre + " (" + xLRA(r, &class, false) + ")" + suf
+		}
+		return fn + "(" + []string{"0", "1", "1", "2", "3"}[r.Intn(5)] + ", " + inner + ")" + xCmp(r, &class), class
+	}
 	switch r.Intn(10) {
 	case 0, 1, 2, 3:
 		return xLRA(r, &class, false), class
@@ -243,9 +274,24 @@ func xdbML(db XDB) string {
 	return y.Rec("d_gin", y.List(gin), "d_series", y.List(ser), "d_samples", y.List(sam))
 }
 
+var reRange = regexp.MustCompile(`\[(\d+)(s|m)\]`)
+
 func genMetricDB(r *rand.Rand, id int, ndb int) Case {
 	q, class := xQuery(r)
 	c := Case{ID: id, Query: q, Class: class, Runs: 1, Metric: true, Ctx: xCtx(r)}
+	// the window as FixPeriodPlanner hands it to the SQL: widened to whole range windows from the Unix epoch (fix_from / fix_to
+	// of model/LogqlMetricSem.v, theorem fix_window_whole_ranges); half of the cases. A raw window reaches the planners only
+	// when they are driven directly.
+	if m := reRange.FindStringSubmatch(q); m != nil && r.Intn(2) == 0 {
+		n, _ := strconv.ParseInt(m[1], 10, 64)
+		d := n * 1e9
+		if m[2] == "m" {
+			d *= 60
+		}
+		c.Ctx.FromNs = c.Ctx.FromNs / d * d
+		c.Ctx.ToNs = (c.Ctx.ToNs + d - 1) / d * d
+		c.Class = append(c.Class, "window-whole-ranges")
+	}
 	fillDBs(r, &c, ndb)
 	return c
 }
